@@ -24,6 +24,7 @@ type c11Sink struct {
 	Sleep  int      `json:"sleep,omitempty"`  // sleep(micros) inside the sink (stalled party)
 	Spawn  int      `json:"spawn,omitempty"`  // child events added by the sink (handled by sink sc on other workers)
 	Count  bool     `json:"count,omitempty"`  // the sink increments a global counter inside a mutex block
+	Mode   int      `json:"mode,omitempty"`   // how the sink fails: 0 raise(), 1 out-of-bounds assignment in the sink body (plain scope error), 2 return <value>
 }
 
 type c11Event struct {
@@ -74,7 +75,26 @@ func c11Gen(r *simrt.RNG, tier string) interface{} {
 			s.Spawn = 1 + r.Intn(3)
 		}
 		s.Count = r.Bool(0.4)
+		if r.Bool(0.3) {
+			s.Mode = 1 + r.Intn(2)
+		}
 		p.Sinks = append(p.Sinks, s)
+	}
+	family := r.Bool(0.08)
+	if family {
+		// several sinks behind one wildcard leaf plus sinks on the exact kinds; events of
+		// both kinds are matched by different workers at the same moment
+		p.Sinks = nil
+		p.Workers = 2 + r.Intn(3)
+		for i := 0; i < 5; i++ {
+			s := c11Sink{Name: fmt.Sprintf("s%d", i), Prio: i, Kinds: []string{"c11.*"}}
+			if i == 3 {
+				s.Kinds = []string{"c11.a"}
+			} else if i == 4 {
+				s.Kinds = []string{"c11.b"}
+			}
+			p.Sinks = append(p.Sinks, s)
+		}
 	}
 	p.Globals = r.Bool(0.3)
 	nc := 2 + r.Intn(3)
@@ -92,6 +112,14 @@ func c11Gen(r *simrt.RNG, tier string) interface{} {
 				e.Fail[s.Name] = r.Bool(0.4)
 			}
 			e.FailC = r.Bool(0.4)
+			if family {
+				e.Kind = []string{"c11.a", "c11.b"}[r.Intn(2)]
+				e.Wait = r.Bool(0.2)
+				e.PauseNs = 0
+				for _, s := range p.Sinks {
+					e.Fail[s.Name] = r.Bool(0.08)
+				}
+			}
 			evs = append(evs, e)
 		}
 		p.Clients = append(p.Clients, evs)
@@ -147,6 +175,11 @@ func c11Shrink(pi interface{}) []interface{} {
 			q.Sinks[i].Spawn--
 			out = append(out, q)
 		}
+		if s.Mode > 0 {
+			q := clone()
+			q.Sinks[i].Mode = 0
+			out = append(out, q)
+		}
 	}
 	if p.Workers > 2 {
 		q := clone()
@@ -165,7 +198,7 @@ func c11Program(p *c11Plan) string {
 	var b strings.Builder
 	if p.Globals {
 		// names the sinks use for their own `event` value and `let` locals
-		b.WriteString("event := {\"state\": {\"id\": -1}, \"name\": \"global\"}\nid := -2\nacc := -3\ny := -4\n")
+		b.WriteString("event := {\"state\": {\"id\": -1}, \"name\": \"global\"}\nid := -2\nacc := -3\ny := -4\narr := [-5, -5]\n")
 	}
 	b.WriteString("gcount := 0\nfunc bump() {\n    mutex cm {\n        gcount := gcount + 1\n    }\n}\n")
 	b.WriteString("func shared(x) {\n    let y := x\n    return y\n}\n")
@@ -175,7 +208,8 @@ func c11Program(p *c11Plan) string {
 			ks = append(ks, fmt.Sprintf("%q", k))
 		}
 		fmt.Fprintf(&b, "sink %s\n    kindmatch [%s],\n    priority %d\n{\n", s.Name, strings.Join(ks, ", "), s.Prio)
-		b.WriteString("    let id := event.state.id\n    let acc := id\n")
+		// arr: a local list built from a constant literal and then written in place
+		b.WriteString("    let id := event.state.id\n    let acc := id\n    let arr := [0, 0]\n    arr[0] := id\n")
 		if s.Loops > 0 {
 			fmt.Fprintf(&b, "    for i in range(1, %d) {\n", s.Loops)
 			if s.Shared {
@@ -196,16 +230,21 @@ func c11Program(p *c11Plan) string {
 		if s.Count {
 			b.WriteString("    bump()\n")
 		}
-		fmt.Fprintf(&b, "    probe(%q, id, acc, event.state.id, event.name)\n", s.Name)
+		fmt.Fprintf(&b, "    probe(%q, id, acc, event.state.id, event.name, arr[0])\n", s.Name)
 		fmt.Fprintf(&b, "    if event.state.fail%s {\n", s.Name)
-		if s.Interp {
+		if s.Mode == 1 {
+			// a plain error of the variable scope, raised by a statement of the sink body itself
+			b.WriteString("        arr[id + 100] := 1\n")
+		} else if s.Mode == 2 {
+			b.WriteString("        return [id, acc]\n")
+		} else if s.Interp {
 			fmt.Fprintf(&b, "        raise(\"T-%s\", \"d{{id}}\", [id, acc])\n", s.Name)
 		} else {
 			fmt.Fprintf(&b, "        raise(\"T-%s\", id, [id, acc])\n", s.Name)
 		}
 		b.WriteString("    }\n}\n")
 	}
-	b.WriteString("sink sc\n    kindmatch [\"c11x.c\"],\n    priority 0\n{\n    let id := event.state.id\n    let acc := shared(id)\n    probe(\"sc\", id, acc, event.state.id, event.name)\n    if event.state.failc {\n        raise(\"T-sc\", id, [id, acc])\n    }\n}\n")
+	b.WriteString("sink sc\n    kindmatch [\"c11x.c\"],\n    priority 0\n{\n    let id := event.state.id\n    let acc := shared(id)\n    probe(\"sc\", id, acc, event.state.id, event.name, id)\n    if event.state.failc {\n        raise(\"T-sc\", id, [id, acc])\n    }\n}\n")
 	return b.String()
 }
 
@@ -213,6 +252,7 @@ type c11Probe struct {
 	sink             string
 	id, acc, idAgain float64
 	name             string
+	arr0             float64
 }
 
 func c11Run(p *c11Plan) {
@@ -220,13 +260,14 @@ func c11Run(p *c11Plan) {
 	vs := newGlobalScope()
 	probes := map[int][]c11Probe{}
 	vs.SetValue("probe", &goFunc{name: "probe", f: func(tid uint64, args []interface{}) (interface{}, error) {
-		if len(args) != 5 {
+		if len(args) != 6 {
 			simrt.Fail("oracle:probe", "probe-args", "probe called with %d args", len(args))
 		}
 		id, _ := num(args[1])
 		acc, _ := num(args[2])
 		id2, _ := num(args[3])
-		probes[int(id)] = append(probes[int(id)], c11Probe{fmt.Sprint(args[0]), id, acc, id2, fmt.Sprint(args[4])})
+		arr0, _ := num(args[5])
+		probes[int(id)] = append(probes[int(id)], c11Probe{fmt.Sprint(args[0]), id, acc, id2, fmt.Sprint(args[4]), arr0})
 		return nil, nil
 	}})
 	src := c11Program(p)
@@ -402,9 +443,9 @@ func c11Run(p *c11Plan) {
 				if pr.sink != run[k].Name {
 					simrt.Fail("oracle:invocations", "invocation-order", "event %d: invocation %d was sink %s, want %s", e.ID, k, pr.sink, run[k].Name)
 				}
-				if pr.id != float64(e.ID) || pr.acc != float64(e.ID) || pr.idAgain != float64(e.ID) || pr.name != fmt.Sprintf("ev%d", e.ID) {
-					simrt.Fail("oracle:isolation", "isolation", "sink %s invoked for event %d saw event id %v, local %v, event id (again) %v, event name %q",
-						pr.sink, e.ID, pr.id, pr.acc, pr.idAgain, pr.name)
+				if pr.id != float64(e.ID) || pr.acc != float64(e.ID) || pr.idAgain != float64(e.ID) || pr.name != fmt.Sprintf("ev%d", e.ID) || pr.arr0 != float64(e.ID) {
+					simrt.Fail("oracle:isolation", "isolation", "sink %s invoked for event %d saw event id %v, local %v, event id (again) %v, event name %q, first item of its local list %v",
+						pr.sink, e.ID, pr.id, pr.acc, pr.idAgain, pr.name, pr.arr0)
 				}
 			}
 			if len(trig) > 0 && !reported[e.ID] {
@@ -413,12 +454,34 @@ func c11Run(p *c11Plan) {
 			want := map[string]rep{}
 			if failing != "" {
 				detail := fmt.Sprint(float64(e.ID))
+				mode := 0
 				for _, s := range p.Sinks {
 					if s.Name == failing && s.Interp {
 						detail = "d" + fmt.Sprint(float64(e.ID))
 					}
+					if s.Name == failing {
+						mode = s.Mode
+					}
 				}
 				want[failing] = rep{"T-" + failing, detail, fmt.Sprint([]interface{}{float64(e.ID), float64(e.ID)})}
+				if g, ok := reports[e.ID][failing]; ok && mode != 0 {
+					// type and wording of these failures are the interpreter's; what the invocation
+					// itself contributes is the index (mode 1) / the returned value (mode 2)
+					w := want[failing]
+					w.typ = g.typ
+					if mode == 1 {
+						own := fmt.Sprint(100 + e.ID)
+						w.data = fmt.Sprint(nil)
+						if strings.Contains(g.detail, own) {
+							w.detail = g.detail
+						} else {
+							w.detail = "<a message naming index " + own + ">"
+						}
+					} else {
+						w.detail = g.detail
+					}
+					want[failing] = w
+				}
 			}
 			if e.FailC {
 				for name := range wantChildren {
